@@ -43,9 +43,10 @@ OPEN_STATEMENTS = [
     'minimal rank) for all weight lists.',
     'active_space_sound (sector matrix elements) and agreement with freeze_orbitals: oracle only.  Proved: index arithmetic of '
     'spinorb_from_spatial (which blocks are filled, bijection with (p,q,r,s,sigma,tau)), trivial-partition identity.',
-    'RDM contraction formulas on the N-particle sector (sum_r a+_p a+_r a_r a_q = (N-1) a+_p a_q etc.): oracle only (direct '
-    'expectation values).  Proved: the pairs of maps are mutually inverse (two-hole under the pair-exchange symmetry, '
-    'particle-hole and one-hole unconditionally).',
+    'RDM maps / chemist reordering as statements about expectation values and coefficient sums: oracle only.  Proved: the '
+    'term-level operator identities in any ring with the CAR (chemist_reorder_term, particle_hole_term, two_hole_term with '
+    'exactly the code\'s three correction terms, contraction_identity_term) and that the pairs of maps are mutually inverse; '
+    'the linear step (summing with coefficients / taking <psi|.|psi>, N-hat = N on the sector) is not formalised.',
 ]
 
 # ----------------------------------------------------------------------------- dense reference algebra
